@@ -22,6 +22,7 @@ import (
 	"time"
 
 	"github.com/bbva/qed/api/mgmthttp"
+	qedcmd "github.com/bbva/qed/cmd"
 	"github.com/bbva/qed/consensus"
 	"github.com/bbva/qed/log"
 	"github.com/bbva/qed/protocol"
@@ -77,7 +78,15 @@ func main() {
 	}
 	w := &world{stores: map[string]*storeH{}, rlogs: map[string]*rlogH{}, nodes: map[string]*nodeH{}, srvs: map[string]*srvH{}}
 	in := bufio.NewReaderSize(os.Stdin, 1<<20)
-	out := bufio.NewWriter(os.Stdout)
+	// the protocol keeps the original stdout; whatever QED code prints to
+	// standard output (the command line does) goes to stderr instead
+	pfd, err := syscall.Dup(1)
+	if err != nil {
+		os.Exit(3)
+	}
+	syscall.Dup2(2, 1)
+	os.Stdout = os.Stderr
+	out := bufio.NewWriter(os.NewFile(uintptr(pfd), "protocol"))
 	for {
 		line, err := in.ReadBytes('\n')
 		if len(line) > 0 {
@@ -125,6 +134,10 @@ func (w *world) handle(r *xp.Req) (resp *xp.Resp) {
 		w.nodeOp(r, resp)
 	case strings.HasPrefix(r.Op, "srv-"):
 		w.srvOp(r, resp)
+	case r.Op == "cli":
+		// the real `qed` command line, in this process: qed <args...>
+		qedcmd.Root.SetArgs(r.Args)
+		resp.Err = errStr(qedcmd.Root.Execute())
 	case r.Op == "ping", r.Op == "exit":
 	default:
 		resp.Err = "unknown op " + r.Op
